@@ -213,10 +213,7 @@ func checkCanonicalParse(p *Program, r *Result, parse, rs, ivs, dec *ssa.Functio
 		okArgs := false
 		for _, l := range rangeLoops(rs) {
 			over := short(rtb.Term(l.Over).String())
-			if over != `format.splitArgs(`+l1+`).1` || len(l.earlyExits()) != 0 {
-				continue
-			}
-			if !(l.Exit == ret.Block() || l.Exit.Dominates(ret.Block())) {
+			if over != `format.splitArgs(`+l1+`).1` || !p.completedAt(l, ret.Block()) {
 				continue
 			}
 			// back edge only under isValidString(elem) true
